@@ -511,3 +511,16 @@ Proof.
   destruct (run o init ls) as [s log] eqn:E. destruct (run_inv o ls s log E) as [C _]. simpl.
   intros EP. rewrite (C_phase _ _ C), EP. reflexivity.
 Qed.
+
+Lemma fatal_reaches_loop_l :
+  (forall has_err, forwards_async 5 has_err = true) /\
+  (forall st has_err, forwards_async st has_err = true -> st = 5%Z) /\
+  (forall o s g, st_live s = Some g ->
+     st_async (fst (step o s (LInjAsync (SndFatal g)))) = st_async s ++ [SndFatal g] /\
+     stop_branch (fst (step o s (LInjAsync (SndFatal g)))) BrAsync = true).
+Proof.
+  split; [reflexivity|split].
+  - intros st e H. unfold forwards_async in H. apply Z.eqb_eq in H. exact H.
+  - intros o s g L. simpl. rewrite L. simpl. rewrite Nat.eqb_refl. simpl. split; auto.
+    destruct (st_async s); reflexivity.
+Qed.
